@@ -47,6 +47,8 @@ def gen_calls(rng, n):
             c[rng.choice(["sched_np", "sched_iter", "sched_tuple", "sched_range"])] = True      # every kind of iterable of floats
         if rng.random() < 0.2:
             c["in_order_form"] = rng.choice(["int", "np"])
+        if c["kind"].endswith("Matrix") and "post" not in c and rng.random() < 0.3:
+            c["warm_shrink"] = True       # the same Matrix object annealed before, when it was larger
         out.append(c)
     # sizes around the powers of two (and exactly 64 spins): Matrix models whose largest label fixes the size
     nid = max([c["id"] for c in out] + [0]) + 1
